@@ -160,7 +160,12 @@ def run_impl(c):
         if c['inject'] and s == 0:
             continue
         if c.get('sched') and s % c['inv_update_steps'] != 0:
-            continue        # second-order data legitimately older than the damping of this step (staleness: C05)
+            # second-order data legitimately older than the damping of this step (staleness: C05) - except for the plain eigen
+            # method, which adds the damping at every step: there the system is solved exactly whenever no factor changed
+            # since the last refresh
+            fresh = (s - s % c['factor_update_steps']) <= (s - s % c['inv_update_steps'])
+            if not (c['method'] == 'eigen' and not c['prediv'] and fresh):
+                continue
         out.append({'D': D, 'after': after, 'lam': lam, 'meta': meta,
                     'A': [sd['layers'][n]['A'].double().numpy() for n in names],
                     'G': [sd['layers'][n]['G'].double().numpy() for n in names]})
